@@ -92,9 +92,13 @@ func (r *report) evaluate(hs []*harnessInfo, stats []*interp.HarnessStats, rb *r
 		var order []string
 		for _, f := range st.Findings {
 			switch f.Kind {
-			case "assert", "panic", "exit", "deadlock":
+			case "assert", "panic", "exit", "deadlock", "hang":
 				key := f.Kind + "|" + f.Label
 				if f.Kind != "assert" {
+					key = f.Kind + "|" + f.Msg
+				}
+				if f.Kind == "hang" {
+					// group by the location of the loop, not by the step count
 					key = f.Kind + "|" + f.Msg
 				}
 				if _, ok := groups[key]; !ok {
@@ -141,6 +145,9 @@ func (r *report) evaluate(hs []*harnessInfo, stats []*interp.HarnessStats, rb *r
 					break
 				}
 				wd := 10 * time.Second
+				if f.Kind == "hang" {
+					wd = 5 * time.Second
+				}
 				res, err := rb.run(h.pkgDir, path, knownKeys, wd)
 				if err != nil {
 					v.Native = "replay failed: " + err.Error()
@@ -162,6 +169,8 @@ func (r *report) evaluate(hs []*harnessInfo, stats []*interp.HarnessStats, rb *r
 					ok = res.Outcome == "panic"
 				case "exit":
 					ok = res.Outcome == "exit"
+				case "hang":
+					ok = res.Outcome == "hang"
 				case "deadlock":
 					ok = res.Outcome == "hang" || (res.Outcome == "panic" && strings.Contains(res.Raw+res.Msg, "deadlock"))
 				}
